@@ -13,6 +13,8 @@ test/rt, bench, unit-test images), (3) type-preserving mutants of (2), (4) the t
 Violation keys: c02:<undefined-end|disagree|compile-disagree|memcheck>:<callee or program>:<outcome (pair cannon|boots)>.
 """
 import collections
+import hashlib
+import json
 import os
 import re
 import resource
@@ -22,7 +24,7 @@ import subprocess
 import time
 
 from .. import build, corpus, execu, progrun, stdgen
-from ..core import REPO, scratch
+from ..core import BUILD, REPO, scratch
 
 CFGS = ("cannon", "boots")
 OUT_CAP = 16 << 20          # bytes of stdout+stderr a run may write before it is stopped (SIGXFSZ): flood guard for mutants
@@ -261,6 +263,19 @@ def both_fail(ctx, wl, name, errors):
 # ---------------------------------------------------------------------------------------------------------------
 # workload 1: stdlib / intrinsic boundary programs
 
+def validation_cache_key():
+    h = hashlib.sha256()
+    files = sorted(os.path.join(REPO, "pkgs", "std", f) for f in os.listdir(os.path.join(REPO, "pkgs", "std")) if f.endswith(".dora"))
+    files += [stdgen.__file__, __file__]
+    for p in files:
+        with open(p, "rb") as f:
+            h.update(p.encode() + b"\0" + f.read() + b"\0")
+    for b in ("dora", "dora-cannon-compiler"):
+        with open(os.path.join(build.bindir("rel"), b), "rb") as f:
+            h.update(hashlib.sha256(f.read()).digest())
+    return h.hexdigest()[:16]
+
+
 def front_end_check(d):
     n = [0]
 
@@ -321,8 +336,36 @@ def build_std_programs(ctx, nbatches, per_template, cases_per_program=50):
     tmpls = gen.templates()
     d = scratch(sname(ctx, "c02std-probe"))
     ctx.c02_dirs.append(d)
-    good = gen.validate(tmpls, front_end_check(d), ctx.rng("std-validate"))
-    good = backend_validate(ctx, gen, good, d)
+    # Which templates compile is a function of the std sources, this generator and the compiler binaries: memoised under that
+    # content key (the validation itself is ~20 compiler runs over 800-function probe programs).
+    ck = validation_cache_key()
+    cpath = os.path.join(BUILD, "c02-stdvalid-%s.json" % ck)
+    cached = None
+    if not ctx.opts.get("novalidcache"):
+        try:
+            with open(cpath) as f:
+                cached = json.load(f)
+        except (OSError, ValueError):
+            cached = None
+    if cached is not None:
+        keep = set(cached["good"])
+        good = [t for t in tmpls if t.key(cat) in keep]
+        gen.uninstantiable += [tuple(x) for x in cached["uninstantiable"]]
+        ctx.extra["compiler_crashes_on_accepted_std_calls"] = cached["crashes"]
+        ctx.count("std_templates_crashing_the_shared_pipeline", len(cached["crashes"]))
+        ctx.count("std_validation_from_cache")
+    else:
+        n0 = len(gen.uninstantiable)
+        good = gen.validate(tmpls, front_end_check(d), ctx.rng("std-validate"))
+        good = backend_validate(ctx, gen, good, d)
+        try:
+            tmp = cpath + ".%d.tmp" % os.getpid()
+            with open(tmp, "w") as f:
+                json.dump({"good": [t.key(cat) for t in good], "uninstantiable": gen.uninstantiable[n0:],
+                           "crashes": ctx.extra.get("compiler_crashes_on_accepted_std_calls", [])}, f)
+            os.replace(tmp, cpath)
+        except OSError:
+            pass
     progs = gen.programs(good, ctx.rng("std-cases"), per_template, cases_per_program, max_cases=nbatches * cases_per_program)
     pub = {s.ident() for s in cat.sigs if s.pub and not s.inherited}
     inh = {s.ident() for s in cat.sigs if s.pub and s.inherited}
